@@ -100,6 +100,11 @@ def make_backend_class():
                 h(("configure", None))
             return self.effective_n_jobs(n_jobs)
 
+        def compute_batch_size(self):
+            b = super().compute_batch_size()
+            self.trace.add("batch_size", b=b)
+            return b
+
         def start_call(self):
             with self.cv:
                 self.call_no += 1
